@@ -11,7 +11,7 @@ every write to resultBuf must be one of the bounded forms.
 """
 import os, re, subprocess, json
 from .core import CheckError, hexs
-from .translate import strip_comments, func_body, c_unescape, emit, write_sidecars, STR, defines
+from .translate import strip_comments, func_body, c_unescape, emit, write_sidecars, STR, defines, reachable_body
 
 
 def _eval_many(run, items, includes=("limits.h", "stddef.h", "sys/un.h", "snoopy.h"), extra_defs=""):
@@ -65,7 +65,14 @@ def tr_safety(run):
     sbody = func_body(strip_comments(run.src("src/util/string.c")), "snoopy_util_string_append") or ""
     m = re.search(r"if\s*\(\s*destStringSizeRemaining\s*(<=|<)\s*appendThisSize\s*\)", sbody)
     v["s_append_strict"] = (m.group(1) == "<=") if m else None
-    if not re.search(r"strcat\s*\(\s*&\s*destString\s*\[\s*destStringSize\s*\]\s*,\s*appendThis\s*\)", sbody):
+    # the copy: strcat at the terminator, or a memcpy of strlen(appendThis) + 1 bytes to the same place; the three sizes may be
+    # assigned separately or in their declarations (any qualifiers)
+    copy_ok = (re.search(r"strcat\s*\(\s*&\s*destString\s*\[\s*destStringSize\s*\]\s*,\s*appendThis\s*\)", sbody)
+               or re.search(r"memcpy\s*\(\s*(?:destString\s*\+\s*destStringSize|&\s*destString\s*\[\s*destStringSize\s*\])\s*,\s*appendThis\s*,\s*appendThisSize\s*\+\s*1\s*\)", sbody))
+    sizes_ok = (re.search(r"\bdestStringSize\s*=\s*strlen\s*\(\s*destString\s*\)\s*;", sbody) and re.search(r"\bappendThisSize\s*=\s*strlen\s*\(\s*appendThis\s*\)\s*;", sbody)
+                and re.search(r"\bdestStringSizeRemaining\s*=\s*destStringBufSize\s*-\s*destStringSize\s*;", sbody))
+    if not (copy_ok and sizes_ok):
+        notes.append("translator(safety): util/string.c append: copy statement or size computations not recognised")
         v["s_append_strict"] = None
     msg = strip_comments(run.src("src/message.c"))
     body = func_body(msg, "snoopy_message_generateFromFormat") or ""
@@ -122,16 +129,48 @@ def tr_safety(run):
     # ---------------------------------------------------------------- util/parser.c
     par = strip_comments(run.src("src/util/parser.c"))
     cb = func_body(par, "snoopy_util_parser_csvToArgList") or ""
-    m = re.search(r"argListParsedPtr\s*=\s*malloc\s*\(\s*sizeof\s*\(\s*char\s*\*\s*\)\s*\*\s*\(\s*argCount\s*\+\s*(\d+)\s*\)\s*\)", cb)
-    v["s_csv_extra_slots"] = int(m.group(1)) if m else None
-    if not re.search(r"argCount\s*=\s*commaCount\s*\+\s*1\s*;", cb):
-        v["s_csv_extra_slots"] = None
+    # names of the locals are free: <list> = malloc(sizeof(char*) * (<argc> + N)) with <argc> = <commas> + 1 and <commas> = countChars(argListRaw, ',')
+    v["s_csv_extra_slots"] = None
+    m = re.search(r"(\w+)\s*=\s*malloc\s*\(\s*sizeof\s*\(\s*char\s*\*\s*\)\s*\*\s*\(\s*(\w+)\s*\+\s*(\d+)\s*\)\s*\)", cb)
+    if m:
+        lst, argc = m.group(1), m.group(2)
+        m2 = re.search(r"\b" + argc + r"\s*=\s*(\w+)\s*\+\s*1\s*;", cb)
+        commas = m2.group(1) if m2 else None
+        ok_c = (commas and re.search(r"\b" + commas + r"\s*=\s*snoopy_util_string_countChars\s*\(\s*argListRaw\s*,\s*','\s*\)", cb)
+                and re.search(r"\*\s*argListParsed\s*=\s*" + lst + r"\s*;", cb)
+                # the slot writes: [0], [<idx>] inside the comma loop, [<idx>] for the end marker; <idx> is only set to 0/1 and incremented in the loop
+                and re.search(r"\b" + lst + r"\s*\[\s*0\s*\]\s*=\s*argListRaw\s*;", cb)
+                and re.search(r"while\s*\(\s*NULL\s*!=\s*\(\s*(\w+)\s*=\s*strchr\s*\(\s*(\w+)\s*,\s*','\s*\)\s*\)\s*\)\s*\{\s*\*\s*\1\s*=\s*'\\0'\s*;\s*\2\s*=\s*\1\s*\+\s*1\s*;\s*"
+                              + lst + r"\s*\[\s*(\w+)\s*\]\s*=\s*\2\s*;\s*\3\s*\+\+\s*;\s*\}", cb))
+        if ok_c:
+            v["s_csv_extra_slots"] = int(m.group(3))
+    if v["s_csv_extra_slots"] is None:
+        notes.append("translator(safety): util/parser.c csvToArgList: allocation / slot writes not recognised")
     bb = func_body(par, "snoopy_util_parser_strByteLength") or ""
-    v["s_bytelen_wide"] = bool(re.search(r"long\s+long\s+numberInt\s*=\s*0", bb) and re.search(r"long\s+long\s+factor", bb) and re.search(r"long\s+long\s+result", bb)
-                               and re.search(r"if\s*\(\s*numberInt\s*<=\s*valMax\s*\)\s*\{\s*numberInt\s*=\s*numberInt\s*\*\s*10\s*\+\s*\(\s*\*numberAsTextPtr\s*-\s*'0'\s*\)", bb))
-    m = re.search(r"'k'[^{]*\{\s*factor\s*=\s*([^;]+);", bb)
+    # names of the locals are free; while or for loop over the digits
+    ll = re.findall(r"long\s+long\s+(\w+)\s*(?:=\s*(\d+))?\s*;", bb)
+    macc = re.search(r"if\s*\(\s*(\w+)\s*<=\s*valMax\s*\)\s*\{\s*\1\s*=\s*\1\s*\*\s*10\s*\+\s*\(\s*\*\s*(\w+)\s*-\s*'0'\s*\)\s*;\s*\}", bb)
+    wide = False
+    fac = None
+    if macc:
+        num, cur = macc.group(1), macc.group(2)
+        mres = re.search(r"(\w+)\s*=\s*" + num + r"\s*\*\s*(\w+)\s*;", bb)
+        if mres:
+            res_, fac = mres.group(1), mres.group(2)
+            decl = dict(ll)
+            loop = (re.search(r"while\s*\(\s*isdigit\s*\(\s*\(unsigned\s+char\)\s*\*\s*" + cur + r"\s*\)\s*\)", bb)
+                    or re.search(r"for\s*\([^;]*;\s*isdigit\s*\(\s*\(unsigned\s+char\)\s*\*\s*" + cur + r"\s*\)\s*;\s*" + cur + r"\s*\+\+\s*\)", bb))
+            wide = bool(decl.get(num) == "0" and decl.get(fac) == "1" and res_ in decl and loop
+                        and re.search(r"return\s*\(int\)\s*" + res_ + r"\s*;", bb)
+                        and re.search(r"if\s*\(\s*" + res_ + r"\s*<\s*valMin\s*\)\s*" + res_ + r"\s*=\s*valMin\s*;", bb)
+                        and re.search(r"if\s*\(\s*" + res_ + r"\s*>\s*valMax\s*\)\s*" + res_ + r"\s*=\s*valMax\s*;", bb))
+    v["s_bytelen_wide"] = wide
+    if not wide:
+        notes.append("translator(safety): util/parser.c strByteLength: wide saturating accumulation not recognised")
+    fv = fac or "factor"
+    m = re.search(r"'k'[^{]*\{\s*" + fv + r"\s*=\s*([^;]+);", bb)
     ev.append(("s_factor_k", m.group(1) if m else None))
-    m = re.search(r"'m'[^{]*\{\s*factor\s*=\s*([^;]+);", bb)
+    m = re.search(r"'m'[^{]*\{\s*" + fv + r"\s*=\s*([^;]+);", bb)
     ev.append(("s_factor_m", m.group(1) if m else None))
 
     # ---------------------------------------------------------------- util/syslog.c, configfile.c
@@ -231,19 +270,25 @@ def tr_safety(run):
     lg = strip_comments(run.src("src/datasource/login.c"))
     lb = func_body(lg, "snoopy_datasource_login") or ""
     ldefs = _local_defs(lg)
-    lev = [("s_login_cap", _arr(lb, "login"))]
-    m = re.search(r"int\s+loginSizeMaxWithoutNull\s*=\s*([^;]+);", lb)
-    lev.append(("s_login_without_nul", m.group(1) if m else None))
-    m = re.search(r"int\s+loginSizeMaxWithNull\s*=\s*([^;]+);", lb)
-    lev.append(("s_login_with_nul", m.group(1) if m else None))
-    ok_l = (re.search(r"char\s+login\s*\[[^\]]+\]\s*=\s*\"\"\s*;", lb) and re.search(r"getlogin_r\s*\(\s*login\s*,\s*loginSizeMaxWithNull\s*\)", lb)
-            and re.search(r"strncpy\s*\(\s*login\s*,\s*loginptr\s*,\s*loginSizeMaxWithoutNull\s*\)", lb)
-            and re.search(r"if\s*\(\s*\(int\)\s*strlen\s*\(\s*loginptr\s*\)\s*>\s*loginSizeMaxWithoutNull\s*\)\s*\{\s*login\s*\[\s*loginSizeMaxWithoutNull\s*\]\s*=\s*'\\0'", lb)
+    # the bounds may be constant locals initialised from the macros, or the macros themselves: evaluate the expressions at their uses
+    for mloc in re.finditer(r"^\s*(?:const\s+)?int\s+(?:const\s+)?(\w+)\s*=\s*([A-Za-z_0-9 +\-()]+);", lb, re.M):
+        if len(re.findall(r"\b%s\b\s*(?:=(?!=)|\+\+|--|\+=|-=)" % mloc.group(1), lb)) == 1:
+            ldefs += "#define %s (%s)\n" % (mloc.group(1), mloc.group(2))
+    mg = re.search(r"getlogin_r\s*\(\s*login\s*,\s*([^;{}]+?)\)\s*\)", lb)
+    mc = re.search(r"strncpy\s*\(\s*login\s*,\s*loginptr\s*,\s*([^;{}]+?)\)\s*;", lb)
+    mt = re.search(r"if\s*\(\s*\(int\)\s*strlen\s*\(\s*loginptr\s*\)\s*>\s*([^{};]+?)\)\s*\{\s*login\s*\[([^\]]+)\]\s*=\s*'\\0'", lb)
+    lev = [("s_login_cap", _arr(lb, "login")), ("s_login_with_nul", mg.group(1) if mg else None), ("s_login_without_nul", mc.group(1) if mc else None),
+           ("l_cmp", mt.group(1) if mt else None), ("l_idx", mt.group(2) if mt else None)]
+    ok_l = (re.search(r"char\s+login\s*\[[^\]]+\]\s*=\s*\"\"\s*;", lb)
             and re.search(r"return\s+snprintf\s*\(\s*resultBuf\s*,\s*resultBufSize\s*,\s*\"%s\"\s*,\s*login\s*\)", lb))
     m = re.search(r"strcpy\s*\(\s*login\s*,\s*" + STR + r"\s*\)", lb)
     v["s_login_unknown"] = c_unescape(m.group(1)) if m else None
     lr = _eval_many(run, lev, extra_defs=ldefs)
-    for k, _ in lev:
+    if not (lr.get("s_login_without_nul") is not None and lr.get("s_login_without_nul") == lr.get("l_cmp") == lr.get("l_idx")):
+        ok_l = False
+    if not ok_l:
+        notes.append("translator(safety): login.c: buffer initialiser, copy bound, terminator test or final snprintf not recognised")
+    for k in ("s_login_cap", "s_login_with_nul", "s_login_without_nul"):
         v[k] = lr.get(k) if ok_l else None
     dt = strip_comments(run.src("src/datasource/datetime.c"))
     db = func_body(dt, "snoopy_datasource_datetime") or ""
@@ -256,7 +301,7 @@ def tr_safety(run):
 
     # ---------------------------------------------------------------- exclude_spawns_of.c
     es = strip_comments(run.src("src/filter/exclude_spawns_of.c"))
-    fa = func_body(es, "find_ancestor_in_list") or ""
+    fa = reachable_body(es, "find_ancestor_in_list")        # the read block may have been moved into a file-local helper
     edefs = _local_defs(es)
     m1 = re.search(r"fread\s*\(\s*st_buf\s*,\s*1\s*,\s*([^,]+),\s*statf\s*\)", fa)
     m2 = re.search(r"len\s*>=\s*([A-Za-z_0-9]+)\s*\)", fa)
